@@ -334,3 +334,44 @@ func (tc *tokenConsumer) reachTyped(from ssa.Instruction, target func(ssa.Instru
 	}
 	return nil, false
 }
+
+// enumSwitchesTypeSwitchDefaults reports, for every type switch in the named function of package rel, whether its default clause panics.
+func enumSwitchesTypeSwitchDefaults(p *core.Program, rel, fnName string) []bool {
+	pk := p.ByPath[core.ModPath+"/"+rel]
+	if pk == nil {
+		return nil
+	}
+	var out []bool
+	for _, f := range pk.Syntax {
+		for _, d := range f.Decls {
+			fd, ok := d.(*ast.FuncDecl)
+			if !ok || fd.Body == nil || fd.Name.Name != fnName || fd.Recv != nil {
+				continue
+			}
+			ast.Inspect(fd.Body, func(n ast.Node) bool {
+				ts, ok := n.(*ast.TypeSwitchStmt)
+				if !ok {
+					return true
+				}
+				for _, st := range ts.Body.List {
+					cc := st.(*ast.CaseClause)
+					if cc.List != nil {
+						continue
+					}
+					panics := false
+					ast.Inspect(cc, func(m ast.Node) bool {
+						if ce, ok := m.(*ast.CallExpr); ok {
+							if id, ok := ce.Fun.(*ast.Ident); ok && id.Name == "panic" {
+								panics = true
+							}
+						}
+						return true
+					})
+					out = append(out, panics)
+				}
+				return true
+			})
+		}
+	}
+	return out
+}
